@@ -9,6 +9,9 @@ if [ ! -x $VERIF/bin/vsrewrite ]; then
   (cd $VERIF/engines/vsrewrite && go build -o $VERIF/bin/vsrewrite .)
 fi
 $VERIF/bin/vsrewrite -pkg $BPMOD -out "$W/rw" -vs $BPIMP/zzverif/vs -overlay "$W/ov_rw.json" 2>/dev/null
+if [ "$(cat "$W/rw/select_default_sites" 2>/dev/null)" != "1" ]; then
+  echo "note: the processor has $(cat "$W/rw/select_default_sites" 2>/dev/null) select statements with a default arm; the model's treatment of non-blocking partners was argued for one (DESIGN.md appendix A)" >&2
+fi
 python3 - "$W" <<'PY'
 import json,os,sys
 W=sys.argv[1]
